@@ -577,3 +577,7 @@ mod tests {
         );
     }
 }
+
+#[cfg(kani)]
+#[path = "/verif/kani/storage/pager.rs"]
+mod kani_harness;
